@@ -52,6 +52,74 @@ def coq_subst(kind, par, i):
     return f"{{| sid := {i}; knd := {kind}; mw := {qstr(par['mw'])}; dens := {qstr(par['dens'])}; act := {qstr(par['act'])} |}}"
 
 
+# ----------------------------------------------------------------------------- configured default densities (separate processes)
+CONFIG_DENSITIES = [('2', '50'), ('0.8', '3.5'), ('1', '1')]      # (default_solid_density g/mL, default_enzyme_density U/mL)
+WORKER = r"""
+import sys, json
+from pyplate import Substance, Unit
+job = json.load(open(sys.argv[1]))
+subs = {'Solid': Substance.solid('s_solid', float(job['mw'])), 'Liquid': Substance.liquid('s_liquid', float(job['mw']), float(job['ldens'])),
+        'Enzyme': Substance.enzyme('s_enzyme', job['act'] + ' U/g')}
+out = []
+for kind, q, fu, tu in job['cells']:
+    try:
+        out.append(['val', repr(Unit.convert(subs[kind], q + ' ' + fu, tu))])
+    except Exception as e:
+        out.append(['exc', type(e).__name__])
+json.dump(out, open(sys.argv[2], 'w'))
+"""
+
+
+def config_part(chk):
+    """substances made by the factories (no density set by hand) under configured default densities, one process per configuration"""
+    import os, subprocess, yaml
+    base = yaml.safe_load(open(os.path.join(common.REPO, 'pyplate', 'pyplate.yaml')))
+    d = os.path.join(common.BUILD, 'cfg')
+    os.makedirs(d, exist_ok=True)
+    open(os.path.join(d, 'c06_worker.py'), 'w').write(WORKER)
+    fails, n = [], 0
+    par = {'mw': '58.5', 'ldens': '1.25', 'act': '7000'}
+    units = [p + b for b in ('g', 'L', 'mol', 'U') for p in ('', 'm', 'u', 'k', 'da')]
+    cells = [(k, q, fu, tu) for k in KINDS for q in ('1.75', '0.004') for fu in units for tu in units
+             if (hash((k, fu, tu)) % 7 == 0 or chk.tier == 'thorough' or fu[-1] != tu[-1] and fu[:1] == tu[:1] == '')]
+    for sd, ed in CONFIG_DENSITIES:
+        cfgd = os.path.join(d, f"c06_{sd}_{ed}".replace('.', '_'))
+        os.makedirs(cfgd, exist_ok=True)
+        doc = dict(base, default_solid_density=float(sd), default_enzyme_density=float(ed))
+        yaml.safe_dump(doc, open(os.path.join(cfgd, 'pyplate.yaml'), 'w'))
+        job = dict(par, cells=cells)
+        json.dump(job, open(os.path.join(cfgd, 'job.json'), 'w'))
+        env = dict(os.environ, PYPLATE_CONFIG=cfgd, PYTHONPATH=common.REPO)
+        rc = subprocess.run(['/venv/bin/python', os.path.join(d, 'c06_worker.py'), os.path.join(cfgd, 'job.json'), os.path.join(cfgd, 'out.json')],
+                            env=env, stdout=subprocess.PIPE, stderr=subprocess.STDOUT, text=True)
+        if rc.returncode != 0:
+            fails.append((f"conversion worker failed under default densities {sd} / {ed}: {rc.stdout[-300:]}", {'solid_density': sd, 'enzyme_density': ed}))
+            continue
+        res = json.load(open(os.path.join(cfgd, 'out.json')))
+        for (kind, q, fu, tu), r in zip(cells, res):
+            n += 1
+            dens = {'Solid': sd, 'Liquid': par['ldens'], 'Enzyme': ed}[kind]
+            fp = [x for x in PREFIXES if x[0] == fu[:-len(base_of(fu))]][0][2]
+            tp = [x for x in PREFIXES if x[0] == tu[:-len(base_of(tu))]][0][2]
+            exp = spec(kind, {'mw': par['mw'], 'dens': dens, 'act': par['act']}, q, fp, base_of(fu), tp, base_of(tu))
+            if exp[0] == 'reject':
+                ok = r[0] == 'exc'
+            else:
+                ok = r[0] == 'val' and close(F(float(r[1])), exp[1], 1e-12, 1e-9)
+            if not ok and len(fails) < 3:
+                fails.append((f"under default_solid_density={sd}, default_enzyme_density={ed}: Unit.convert({kind}, '{q} {fu}', '{tu}') = {r[1]}, "
+                              f"chemistry says {float(exp[1]) if exp[0] == 'val' else 'reject'}",
+                              {'solid_density': sd, 'enzyme_density': ed, 'kind': kind, 'q': q, 'from': fu, 'to': tu}))
+    return fails, n
+
+
+def base_of(u):
+    for b in ('mol', 'L', 'g', 'U'):
+        if u.endswith(b):
+            return b
+    raise ValueError(u)
+
+
 def cells(chk):
     amounts_all = ['1.75', '0', '-2.5']
     out = []
@@ -183,13 +251,17 @@ def run(chk, gate, status):
         if not (abs(b - c) <= 1e-12 * abs(c) and abs(back - 1.75) <= 1e-12):
             chk.violation(f"composition/round trip fails for {kind} {u1}->{u2}->{u3}: {b} vs {c}, back {back}",
                           {'kind': kind, 'params': PARAMS[pi], 'units': [u1, u2, u3], 'values': [a, b, c, back]})
+    cfails, ncfg = config_part(chk)
+    for msg, doc in cfails[:3]:
+        oracle_fail += 1
+        chk.violation(msg, dict(doc, kind_of_case='configured default densities'))
     if errors:
         chk.violation('model evaluation failed: ' + errors[0][:300], {'relation': 'coq_eval C06', 'errors': errors[:3]},
                       found_input=False)
-    chk.assumptions += ["solid / enzyme densities are set on the Substance object to stand for configured defaults",
+    chk.assumptions += ["in the cell enumeration solid / enzyme densities are set on the Substance object; configured defaults are exercised in separate processes (PYPLATE_CONFIG) with substances made by the factories only",
                         "floats compared with rationals at rtol 1e-12 (a handful of IEEE operations per call)"]
     return {
-        'evaluations': len(cs) + len(stor) + comp, 'programs': len(cs) + len(stor),
+        'evaluations': len(cs) + len(stor) + comp + ncfg, 'programs': len(cs) + len(stor), 'configured_density_cells': ncfg,
         'distinct_nontrivial': len(nontrivial),
         'rule': 'complete enumeration of kind x (prefix,base) x (prefix,base) cells of Unit.convert_from '
                 '(quick: one parameter set, one generic amount per cell plus 10% zero/negative; thorough: two '
